@@ -422,4 +422,296 @@ theorem chain_complete (ord : Order) (rules : List Rule) (history : List Rule) (
   have : q.src ∈ history.map (·.src) := List.mem_map.2 ⟨q, hq, rfl⟩
   simp [this]
 
+/-! ## C15.4 application, step by step -/
+
+theorem linked_prefix {S : Ver → Ver → Prop} : ∀ (p q : Path) (a : Ver), q <+: p → Linked S a p → Linked S a q
+  | _, [], _, _, _ => trivial
+  | [], _ :: _, _, h, _ => by simp at h
+  | r :: rs, r' :: qs, _, h, hl => by
+    obtain ⟨h1, h2⟩ := List.cons_prefix_cons.1 h
+    subst h1
+    exact ⟨hl.1, linked_prefix rs qs _ h2 hl.2⟩
+
+/-- what the way the inner loop ended says about the outcome of the last hook run -/
+def EndOK (desired : Ver) : PathEnd → List Obj → Option HookOut → Prop
+  | .done, o, lo => lo = some (.resp "" o) ∧ extractVersions o = [desired]
+  | .exhausted, _, lo => ∀ msg out, lo = some (.resp msg out) → msg = ""
+  | .ret (.err _), _, lo => ∀ msg out, lo = some (.resp msg out) → msg = ""
+  | .ret (.resp (some m) _), _, lo => ∀ msg out, lo = some (.resp msg out) → msg ≠ "" → m = .own msg
+  | .ret (.resp none _), _, _ => False
+
+theorem EndOK.after_ok {desired : Ver} {e : PathEnd} {o out : List Obj}
+    (h : EndOK desired e o none) : EndOK desired e o (some (.resp "" out)) := by
+  cases e with
+  | done => simp [EndOK] at h
+  | exhausted => intro msg out' h'; simp at h'; exact h'.1
+  | ret r =>
+    cases r with
+    | err m => intro msg out' h'; simp at h'; exact h'.1
+    | resp f objs =>
+      cases f with
+      | none => exact h
+      | some m => intro msg out' h' hne; simp at h'; exact absurd h'.1 hne
+
+theorem lastOutcome_cons (script : Script) (i : Nat) (t : Invocation) (ts : List Invocation) :
+    lastOutcome script i (t :: ts) =
+      if ts = [] then some (script i t.rule t.input) else lastOutcome script (i + 1) ts := by
+  cases ts with
+  | nil => simp [lastOutcome]
+  | cons t' ts' => simp [lastOutcome]
+
+/-- The inner loop, from any point of the run on: the runs it adds serve a prefix of the chain, in
+order; each receives the previous output; nothing runs after a run that did not succeed; and the way
+the loop ends matches the outcome of the last run. -/
+theorem runPath_spec (links : Rule → Bool) (script : Script) (desired : Ver) :
+    ∀ (p : Path) (objs : List Obj) (inv0 : List Invocation),
+      ∃ tr, (runPath links script desired p objs inv0).2.2 = inv0 ++ tr ∧
+        tr.map (·.rule) <+: p ∧
+        pipeCheck script inv0.length objs tr = none ∧
+        EndOK desired (runPath links script desired p objs inv0).1
+          (runPath links script desired p objs inv0).2.1 (lastOutcome script inv0.length tr) := by
+  intro p
+  induction p with
+  | nil =>
+    intro objs inv0
+    exact ⟨[], by simp [runPath], by simp, by simp [pipeCheck], by simp [runPath, EndOK, lastOutcome]⟩
+  | cons r rs ih =>
+    intro objs inv0
+    simp only [runPath]
+    by_cases hl : links r = true
+    · simp only [hl, Bool.not_true, Bool.false_eq_true, if_false]
+      cases hs : script inv0.length r objs with
+      | exitFail =>
+        refine ⟨[⟨r, objs⟩], rfl, by simp, ?_, ?_⟩
+        · simp [pipeCheck, hs, HookOut.okOut]
+        · simp [EndOK, lastOutcome, hs]
+      | noResponse =>
+        refine ⟨[⟨r, objs⟩], rfl, by simp, ?_, ?_⟩
+        · simp [pipeCheck, hs, HookOut.okOut]
+        · simp [EndOK, lastOutcome, hs]
+      | resp msg out =>
+        by_cases hm : msg = ""
+        · subst hm
+          simp only [ne_eq, not_true_eq_false, if_false]
+          by_cases hd : extractVersions out = [desired]
+          · simp only [hd, if_true]
+            refine ⟨[⟨r, objs⟩], rfl, by simp, ?_, ?_⟩
+            · simp [pipeCheck, hs, HookOut.okOut]
+            · simp [EndOK, lastOutcome, hs, hd]
+          · simp only [hd, if_false]
+            obtain ⟨tr, h1, h2, h3, h4⟩ := ih out (inv0 ++ [⟨r, objs⟩])
+            refine ⟨⟨r, objs⟩ :: tr, by simp [h1], ?_, ?_, ?_⟩
+            · simp only [List.map_cons]; exact List.cons_prefix_cons.2 ⟨rfl, h2⟩
+            · simp only [List.length_append, List.length_cons, List.length_nil] at h3
+              simp [pipeCheck, hs, HookOut.okOut, h3]
+            · simp only [List.length_append, List.length_cons, List.length_nil] at h4
+              rw [lastOutcome_cons]
+              by_cases htr : tr = []
+              · subst htr
+                simp only [if_true, hs]
+                exact EndOK.after_ok (by simpa [lastOutcome] using h4)
+              · simp only [htr, if_false]; exact h4
+        · simp only [ne_eq, hm, not_false_eq_true, if_true]
+          refine ⟨[⟨r, objs⟩], rfl, by simp, ?_, ?_⟩
+          · simp [pipeCheck, hs, HookOut.okOut, hm]
+          · intro msg' out' h' _
+            simp [lastOutcome, hs] at h'
+            rw [h'.1]
+    · simp only [hl, Bool.not_false, if_true]
+      exact ⟨[], by simp, by simp, by simp [pipeCheck], by simp [EndOK, lastOutcome]⟩
+
+/-- the reply built from the way the inner loop ended (single source version: the outer loop has
+nothing left after this path) -/
+def replyOf (requested : Nat) (r : PathEnd × List Obj × List Invocation) : Reply :=
+  match r.1 with
+  | .done => review requested (.resp none r.2.1)
+  | .ret x => review requested x
+  | .exhausted => review requested (.resp (some .notSuccessful) [])
+
+/-- **C15.4 (`apply_chain`), for any chain handed to the handler.** With `p` a sequence of declared
+rules linked from the source version `a`, for every script of hook outcomes: the property of the
+application phase (`applyCheck`: chain order, each step receives the previous output, `Success` with
+the requested number of objects only if every step succeeded, the failing hook's own message is
+relayed, no step after a failed one) holds of what the handler does. -/
+theorem apply_path (links : Rule → Bool) (script : Script) (rules : List Rule) (desired a : Ver)
+    (objs : List Obj) (p : Path) (hv : extractVersions objs = [a])
+    (hd : ∀ r ∈ p, r ∈ rules) (hl : Linked Matched a p) :
+    applyCheck rules desired objs script (runPath links script desired p objs []).2.2
+      (replyOf objs.length (runPath links script desired p objs [])) = none := by
+  obtain ⟨tr, h1, h2, h3, h4⟩ := runPath_spec links script desired p objs []
+  simp only [List.nil_append, List.length_nil] at h1 h3 h4
+  generalize hres : runPath links script desired p objs [] = res at *
+  obtain ⟨e, o, inv⟩ := res
+  simp only at h1 h4
+  subst h1
+  have hdecl : (inv.map (·.rule)).all (fun r => rules.contains r) = true := by
+    simp only [List.all_eq_true, List.contains_iff_mem]
+    intro r hr
+    exact hd r (h2.subset hr)
+  have hlink : linkedB versionsMatched a (inv.map (·.rule)) = true :=
+    (linkedB_iff _ _).2 (linked_prefix p _ a h2 hl)
+  simp only [applyCheck, hv, List.headD_cons, hdecl, hlink, h3, Bool.not_true, Bool.false_eq_true, if_false]
+  cases e with
+  | done =>
+    obtain ⟨hlo, hver⟩ := h4
+    by_cases hlen : objs.length = o.length
+    · simp [replyOf, review, hlen, hlo, HookOut.okOut, hver]
+    · simp [replyOf, review, hlen, hlo]
+  | exhausted =>
+    simp only [replyOf, review]
+    split
+    · rename_i msg out hlo
+      have := h4 msg out hlo
+      simp [this]
+    · rfl
+  | ret x =>
+    cases x with
+    | err m =>
+      simp only [replyOf, review]
+      split
+      · rename_i msg out hlo
+        have := h4 msg out hlo
+        simp [this]
+      · rfl
+    | resp f objs' =>
+      cases f with
+      | none => exact absurd h4 (by simp [EndOK])
+      | some m =>
+        simp only [replyOf, review]
+        split
+        · rename_i msg out hlo
+          by_cases hm : msg = ""
+          · simp [hm]
+          · have := h4 msg out hlo hm
+            simp [this]
+        · rfl
+
+/-- the handler on a request whose objects share one source version -/
+theorem convert_eq (ord : Order) (links : Rule → Bool) (script : Script) (c : Chain) (desired a : Ver)
+    (objs : List Obj) (hv : extractVersions objs = [a]) :
+    convert ord links script c desired objs =
+      match (find ord c ⟨a, desired⟩).2 with
+      | .found p => (replyOf objs.length (runPath links script desired p objs []),
+                     (runPath links script desired p objs []).2.2)
+      | _ => (.failed .notSuccessful, []) := by
+  simp only [convert, eventHandler, hv, eventLoop]
+  generalize find ord c ⟨a, desired⟩ = fr
+  obtain ⟨c', out⟩ := fr
+  cases out with
+  | found p =>
+    simp only
+    generalize runPath links script desired p objs [] = rp
+    obtain ⟨e, o, inv⟩ := rp
+    cases e <;> simp [replyOf, review]
+  | notFound => simp [review]
+  | outOfFuel => simp [review]
+
+/-- **C15.4 (`apply_chain`).** End to end — search on the stateful cache after any history, then the
+application — for every script of hook outcomes and every iteration order, on a request whose
+objects share the source version `a`. -/
+theorem apply_chain (ord : Order) (links : Rule → Bool) (script : Script) (rules history : List Rule)
+    (desired a : Ver) (objs : List Obj) (hv : extractVersions objs = [a])
+    (hU : Coherent (a :: desired :: versionsOf rules)) :
+    applyCheck rules desired objs script
+      (convert ord links script (afterQueries ord (Chain.ofRules rules) history) desired objs).2
+      (convert ord links script (afterQueries ord (Chain.ofRules rules) history) desired objs).1 = none := by
+  rw [convert_eq ord links script _ desired a objs hv]
+  cases hf : (find ord (afterQueries ord (Chain.ofRules rules) history) ⟨a, desired⟩).2 with
+  | found p =>
+    have hc := chain_sound ord rules history a desired p hU hf
+    exact apply_path links script rules desired a objs p hv hc.declared hc.linked
+  | notFound => simp [applyCheck, hv, linkedB, pipeCheck, lastOutcome]
+  | outOfFuel => simp [applyCheck, hv, linkedB, pipeCheck, lastOutcome]
+
+/-! ## non-vacuity and regression witnesses -/
+
+section Examples
+
+private def R (a b : String) : Rule := ⟨a.toList, b.toList⟩
+private def V (a : String) : Ver := a.toList
+
+/-- a stem of three steps, then a fork; mixed spellings; a cycle back to the start -/
+private def forkRules : List Rule :=
+  [R "a" "g.io/b", R "b" "c", R "g.io/c" "d", R "d" "e", R "g.io/d" "f", R "f" "g.io/a"]
+
+/-- `chain_sound`/`chain_complete`/`find_terminates` are not vacuous: after two earlier queries, with
+the maps iterated backwards, the request a→f (asked with the group) is answered by a four-step chain. -/
+example : (find Order.rev (afterQueries Order.rev (Chain.ofRules forkRules) [R "a" "e", R "g.io/b" "d"])
+    (R "g.io/a" "f")).2 = .found [R "a" "g.io/b", R "b" "c", R "g.io/c" "d", R "g.io/d" "f"] := by decide
+
+example : Coherent (V "g.io/a" :: V "f" :: ([R "a" "e", R "g.io/b" "d"].map (·.src) ++ versionsOf forkRules)) := by
+  unfold Coherent; decide
+
+example : ∃ p, IsChain Matched forkRules (V "g.io/a") (V "f") p :=
+  ⟨[R "a" "g.io/b", R "b" "c", R "g.io/c" "d", R "g.io/d" "f"], (isChainB_iff _ _ _ _).1 (by decide)⟩
+
+/-- no chain: the answer is `notFound`, not a chain and not an exhausted bound -/
+example : (find Order.ident (Chain.ofRules forkRules) (R "e" "a")).2 = .notFound := by decide
+
+private def twoStep : List Rule := [R "v1" "v2", R "g.io/v2" "v3"]
+private def objsV1 : List Obj := [⟨1, V "g.io/v1"⟩, ⟨2, V "g.io/v1"⟩]
+
+/-- `apply_chain` is not vacuous: two steps that succeed … -/
+example : convert Order.ident (fun _ => true)
+    (fun i _ inp => .resp "" (inp.map fun o => ⟨o.id, if i = 0 then V "g.io/v2" else V "g.io/v3"⟩))
+    (Chain.ofRules twoStep) (V "g.io/v3") objsV1
+    = (.success [⟨1, V "g.io/v3"⟩, ⟨2, V "g.io/v3"⟩],
+       [⟨R "v1" "v2", objsV1⟩, ⟨R "g.io/v2" "v3", [⟨1, V "g.io/v2"⟩, ⟨2, V "g.io/v2"⟩]⟩]) := by decide
+
+/-- … and a first step that answers with its own message: relayed, the second step is not run -/
+example : convert Order.ident (fun _ => true) (fun _ _ _ => .resp "boom" [])
+    (Chain.ofRules twoStep) (V "g.io/v3") objsV1
+    = (.failed (.own "boom"), [⟨R "v1" "v2", objsV1⟩]) := by decide
+
+/-! ### the four repaired defects: the unrepaired variants violate the property -/
+
+/-- substring matching in `NextRules`: `v1` is found inside `v1alpha1`, the "chain" does not connect -/
+theorem substring_witness :
+    Unrepaired.find Unrepaired.nextRules [R "v1beta1" "v1", R "v1alpha1" "v2"] (R "v1beta1" "v2")
+      = [R "v1beta1" "v1", R "v1alpha1" "v2"] ∧
+    isChainB versionsMatched [R "v1beta1" "v1", R "v1alpha1" "v2"] (V "v1beta1") (V "v2")
+      [R "v1beta1" "v1", R "v1alpha1" "v2"] = false := by decide
+
+/-- `append(chain.PathsCache[k], next)` on a slice with spare capacity (length 3, capacity 4): the two
+branches of a fork after three steps share one backing array; the chain returned for a→e ends in d→f -/
+theorem aliasing_witness :
+    Unrepaired.find nextRules [R "a" "b", R "b" "c", R "c" "d", R "d" "e", R "d" "f"] (R "a" "e")
+      = [R "a" "b", R "b" "c", R "c" "d", R "d" "f"] ∧
+    isChainB versionsMatched [R "a" "b", R "b" "c", R "c" "d", R "d" "e", R "d" "f"] (V "a") (V "e")
+      [R "a" "b", R "b" "c", R "c" "d", R "d" "f"] = false := by decide
+
+/-- `response.FailedMessage` ignored: the next step runs (on zero objects) after the failed one -/
+theorem failedMessage_witness :
+    let script : Script := fun i _ inp => if i = 0 then .resp "my own message" [] else .resp "" inp
+    let r := Unrepaired.runPath (fun _ => true) script (V "g.io/v3") twoStep objsV1 []
+    r.2.2.length = 2 ∧
+    applyCheck twoStep (V "g.io/v3") objsV1 script r.2.2 (replyOf 2 r)
+      = some "a-later-step-ran-after-a-failed-step" := by decide
+
+/-- the object count compared after `request.Objects` was overwritten: 2 requested, 1 returned, `Success` -/
+theorem objectCount_witness :
+    let script : Script := fun _ _ inp => .resp "" ((inp.take 1).map fun o => ⟨o.id, V "g.io/v3"⟩)
+    let r := runPath (fun _ => true) script (V "g.io/v3") [R "g.io/v2" "v3"]
+      [⟨1, V "g.io/v2"⟩, ⟨2, V "g.io/v2"⟩] []
+    Unrepaired.review 2 (.resp none r.2.1) = .success [⟨1, V "g.io/v3"⟩] ∧
+    applyCheck [R "g.io/v2" "v3"] (V "g.io/v3") [⟨1, V "g.io/v2"⟩, ⟨2, V "g.io/v2"⟩] script r.2.2
+      (Unrepaired.review 2 (.resp none r.2.1)) = some "success-with-a-wrong-number-of-objects" := by decide
+
+/-- the excluded points of `chain_complete`, as facts about the model: a request for the version the
+objects already have is not served through a cycle … -/
+theorem same_version_witness :
+    (find Order.ident (Chain.ofRules [R "v1" "v2", R "v2" "v1"]) (R "v1" "g.io/v1")).2 = .notFound ∧
+    isChainB versionsMatched [R "v1" "v2", R "v2" "v1"] (V "v1") (V "g.io/v1") [R "v1" "v2", R "v2" "v1"] = true := by
+  decide
+
+/-- … and with two groups qualifying one short version, a chain cached for `v1` is handed out for
+`h.io/v1` although its first rule starts at `g.io/v1` (sound only up to the group). -/
+theorem two_groups_witness :
+    (find Order.ident (afterQueries Order.ident (Chain.ofRules [R "g.io/v1" "v2", R "v2" "v3"]) [R "v1" "v3"])
+      (R "h.io/v1" "v3")).2 = .found [R "g.io/v1" "v2", R "v2" "v3"] ∧
+    isChainB versionsMatched [R "g.io/v1" "v2", R "v2" "v3"] (V "h.io/v1") (V "v3")
+      [R "g.io/v1" "v2", R "v2" "v3"] = false := by decide
+
+end Examples
+
 end ShellOp.Conversion.C15
